@@ -31,7 +31,7 @@ def tempo(rng):
 def tree(rng, depth):
     if depth == 0 or rng.random() < 0.3:
         extra = sorted(set(rng.randint(1, 4) for _ in range(rng.choice([0, 0, 1, 2]))))
-        return ["L", rng.randint(0, 5) * U, rng.choice([0, 0, 1, 2]), tempo(rng), [[n, rng.choice([0, 1, 2, 3, 3, -1, -1, -2, -3, -4])] for n in extra]]
+        return ["L", rng.randint(0, 5) * U, rng.choice([0, 0, 1, 2]), tempo(rng), [[n, rng.choice([0, 1, 2, 3, 3, -1, -1, -2, -3, -4, -5, -6, -7])] for n in extra]]
     return [rng.choice("SSP"), rng.choice([0, 0, 1, 2]), tempo(rng)] + [tree(rng, depth - 1) for _ in range(rng.choice([0, 1, 2, 3]))]
 
 
